@@ -1,5 +1,5 @@
 #!/bin/bash
-# NOTE: never run tools/seedcheck.sh (or seedbatch/seedcross) side by side with tools/seeded_all.sh: seeded_all patches /repo in place and seedcheck copies /repo.
+# NOTE: seedcheck/seedbatch/seedcross work on a copy of the COMMITTED tree of /repo (git archive HEAD), so they can run beside tools/seeded_all.sh, which patches the working tree of /repo in place.
 # tools/seedcheck.sh <ID> <seed-dir> [demo go-test args...]
 # Confirms a seeded change independently (suite passes with it, demo fails with it and passes without it) in a scratch copy,
 # then applies it to /repo, runs ./check <ID> (quick) and undoes it. Prints a summary; copies the artefacts to seeded/<name>/.
@@ -13,7 +13,7 @@ NAME=$(basename "$(dirname "$SD")")
 cd "$(dirname "$0")/.."
 export GOFLAGS=-mod=mod GOPROXY=off
 D=$(mktemp -d /tmp/vfseed-XXXXXX)/sftp; mkdir -p "$D"; trap 'rm -rf "$(dirname "$D")"' EXIT
-rsync -a --exclude .git --exclude SEED /repo/ "$D"/
+git -C /repo archive HEAD | tar -x -C "$D"  # the committed tree, not the working tree (tools/seeded_all.sh may be patching that one)
 ( cd "$D" && git init -q . 2>/dev/null; true )
 demo=$(ls "$SD"/*_test.go 2>/dev/null | head -1)
 run_demo() { ( cd "$D" && cp "$demo" zz_demo_test.go && go test -vet=off -count=1 -timeout 300s $DEMOARGS . >"$D/../demo.$1.log" 2>&1; echo $?; rm -f zz_demo_test.go ); }
